@@ -278,13 +278,31 @@ class Spellings(list):
 _ply_parser = [None]
 
 
+class Text(str):
+    """raw text of a formula (hex-encoded in the case line)"""
+
+
+def ply_tokens(text):
+    """tokens of the implementation's lexer, rendered like the model's [show_tokens]"""
+    import dd._parser as P
+    lx = P.Lexer()
+    lx.lexer.input(str(text))
+    out = []
+    while True:
+        t = lx.lexer.token()
+        if t is None:
+            break
+        out.append(f'{t.type}:{t.value}')
+    return ' '.join(out)
+
+
 def ply_tree(spellings):
     """syntax tree of the implementation's parser, rendered like the
     model's [show_ast]"""
     import dd._parser as P
     if _ply_parser[0] is None:
         _ply_parser[0] = P.Parser()
-    t = _ply_parser[0].parse(' '.join(spellings))
+    t = _ply_parser[0].parse(str(spellings) if isinstance(spellings, Text) else ' '.join(spellings))
 
     def show(t):
         if hasattr(t, 'operands'):
@@ -344,6 +362,8 @@ class JNodes(list):
 def fmt_arg(a):
     if isinstance(a, (DNodes, JNodes)):
         return '[' + ','.join(f'{u}:{i}:{t}:{e}' for u, i, t, e in a) + ']'
+    if isinstance(a, Text):
+        return 'x' + a.encode().hex()
     if isinstance(a, Spellings):
         return '[' + ','.join(x.encode().hex() for x in a) + ']'
     if a is None:
@@ -630,6 +650,8 @@ class Impl:
             return out
         if name == 'add_expr':
             return self._h(m, a.add_expr(' '.join(args[0])))
+        if name == 'add_expr_text':
+            return self._h(m, a.add_expr(str(args[0])))
         if name == 'to_expr':
             return a.to_expr(F(args[0]))
         if name == 'shutdown':
@@ -935,6 +957,9 @@ class Impl:
     # ---- formulas ----
     def op_add_expr(self, b, spellings):
         return b.add_expr(' '.join(spellings))
+
+    def op_add_expr_text(self, b, text):
+        return b.add_expr(str(text))
 
     def op_to_expr(self, b, u):
         return b.to_expr(u)
